@@ -25,7 +25,7 @@ IT = z3.Function("iterate", z3.IntSort(), z3.RealSort())  # ghost: state after n
 STEP = z3.Function("step", z3.RealSort(), z3.RealSort(), z3.RealSort())
 
 
-def _controller(it, whole_range):
+def _controller(it, whole_range, stop_handler=None):
     ctx = it.ctx
     dt, t0 = z3.Real("dt"), z3.Real("t_start")
     N = z3.Int("N")
@@ -75,7 +75,7 @@ def _controller(it, whole_range):
     clock = lambda: z3.Real(fresh_name("clock"))
     ctrl = Instance(cls, {"solver": solver, "trackers": trackers, "t_range": (t0, t1), "info": info, "diagnostics": diag,
                           "_get_current_time": clock,
-                          "_get_stop_handler": lambda: (lambda err, t: (Opaque("level"), Opaque("msg")))})
+                          "_get_stop_handler": lambda: ((lambda err, t: stop_handler(info, err, t)) if stop_handler else (lambda err, t: (Opaque("level"), Opaque("msg"))))})
 
     def inv(interp, fr):
         n = ghost["n"]
